@@ -30,7 +30,7 @@ Proof. exact delete_topic_in_use. Qed.
 Theorem C36_failed_delete_changes_nothing :
   forall pr f o f' c,
     (match o with
-     | FDeletePart _ | FDeleteGroup _ _ _ _ | FDeleteTopic _ _ _ | FDeleteEp _ _ _ _ => True
+     | FDeletePart _ | FDeleteGroup _ _ _ _ | FDeleteTopic _ _ _ | FDeleteEp _ _ _ _ | FDeleteCft _ _ => True
      | _ => False end) ->
     fstep pr f o = (f', RErr c) -> f' = f.
 Proof. exact failed_delete_changes_nothing. Qed.
@@ -92,22 +92,43 @@ Theorem C36_delete_endpoint_through_wrong_group_fails :
     fstep pr f (FDeleteEp sd ph gh eh) = (f, RErr E_DELETED).
 Proof. exact delete_ep_wrong_group. Qed.
 
-(* --- "delete_contained_entities leaves the parent empty and deletable" (no content filtered topic) *)
+(* --- "delete_contained_entities leaves the parent empty and deletable" (content filtered topics included,
+   since 7cc766b) *)
 Theorem C36_delete_contained_leaves_empty_and_deletable :
-  forall pr f ph p, find_part f ph = Some p -> pa_cfts p = [] ->
+  forall pr f ph p, find_part f ph = Some p ->
     exists f1 p1,
       fstep pr f (FDeleteContained ph) = (f1, RUnit) /\
-      find_part f1 ph = Some p1 /\ pa_pubs p1 = [] /\ pa_subs p1 = [] /\ pa_topics p1 = [] /\
+      find_part f1 ph = Some p1 /\ pa_pubs p1 = [] /\ pa_subs p1 = [] /\ pa_topics p1 = [] /\ pa_cfts p1 = [] /\
       snd (fstep pr f1 (FDeletePart ph)) = RUnit.
 Proof. exact delete_contained_leaves_empty_and_deletable. Qed.
 
-(* known finding C36-cft-not-contained: with a content filtered topic it is false *)
-Theorem C36_delete_contained_refuted_with_content_filtered_topic :
-  snd (frun Debug init_factory
-         [FCreatePart None; FCreateTopic (part_handle 0) 1 None; FCreateCft (part_handle 0) (-1) 1;
-          FDeleteCft (part_handle 0) (-1); FDeleteContained (part_handle 0); FDeletePart (part_handle 0)]) =
-  [RHandle (part_handle 0); RHandle (mkH 0 0 0 0 10); RUnit; RUnit; RUnit; RErr E_PRECONDITION].
-Proof. exact delete_contained_refuted_with_cft. Qed.
+(* --- content filtered topics are contained entities (since 7cc766b): the related topic cannot be deleted while
+   one refers to it, and a content filtered topic cannot be deleted while a reader was created on it *)
+Theorem C36_topic_with_content_filtered_topic_delete_fails_unchanged :
+  forall pr f ph parent name p c,
+    find_part f ph = Some p -> In c (pa_cfts p) -> c_rel c = name ->
+    exists c0, fstep pr f (FDeleteTopic ph parent name) = (f, RErr c0) /\
+               (In name (map t_name (pa_topics p)) -> c0 = E_PRECONDITION).
+Proof. exact delete_topic_with_cft. Qed.
+
+Theorem C36_content_filtered_topic_in_use_delete_fails_unchanged :
+  forall pr f ph name p g e,
+    find_part f ph = Some p -> In name (map c_name (pa_cfts p)) ->
+    In g (pa_subs p) -> In e (g_eps g) -> e_topic e = name ->
+    fstep pr f (FDeleteCft ph name) = (f, RErr E_PRECONDITION).
+Proof. exact delete_cft_in_use. Qed.
+
+(* regression of the former finding C36-cft-not-contained, both profiles: the topic is protected by the content
+   filtered topic, the latter is deleted once (then AlreadyDeleted), delete_contained_entities removes a second one
+   and the participant can be deleted *)
+Theorem C36_content_filtered_topic_regression :
+  forall pr,
+    let P0 := part_handle 0 in
+    snd (frun pr init_factory
+           [FCreatePart None; FCreateTopic P0 1 None; FCreateCft P0 (-1) 1; FDeleteTopic P0 P0 1; FDeleteCft P0 (-1);
+            FDeleteCft P0 (-1); FCreateCft P0 (-2) 1; FDeleteContained P0; FDeletePart P0]) =
+    [RHandle P0; RHandle (mkH 0 0 0 0 10); RUnit; RErr E_PRECONDITION; RUnit; RErr E_DELETED; RUnit; RUnit; RUnit].
+Proof. exact cft_is_a_contained_entity. Qed.
 
 (* non-vacuity: a reachable state with a publisher holding a writer meets the hypotheses *)
 Example C36_nonvacuous :
@@ -131,4 +152,6 @@ Print Assumptions C36_deleted_topic_proxy_answers_again_after_name_reuse.
 Print Assumptions C36_delete_through_wrong_participant_fails.
 Print Assumptions C36_delete_endpoint_through_wrong_group_fails.
 Print Assumptions C36_delete_contained_leaves_empty_and_deletable.
-Print Assumptions C36_delete_contained_refuted_with_content_filtered_topic.
+Print Assumptions C36_topic_with_content_filtered_topic_delete_fails_unchanged.
+Print Assumptions C36_content_filtered_topic_in_use_delete_fails_unchanged.
+Print Assumptions C36_content_filtered_topic_regression.
